@@ -3,6 +3,8 @@ package props
 import (
 	"github.com/vedadiyan/genql"
 	sanitize "github.com/vedadiyan/genql/sanitizer"
+	"strings"
+	"verif/harness/core"
 	"verif/harness/gq"
 )
 
@@ -86,4 +88,29 @@ func noiseStep() {
 func withNoise() func() {
 	gq.BeforeRun = noiseStep
 	return func() { gq.BeforeRun = nil }
+}
+
+// withUsage turns on the API-usage differential of gq.Call (a result edited by the caller and the
+// same Query executed again; the document untouched by edits of a result; Parse + Prepare with
+// zero-valued Options) for every query the case runs; discrepancies become violations of the case.
+// Usage: r := &core.CaseResult{}; defer withUsage(r, "C01")()
+func withUsage(r *core.CaseResult, id string) func() {
+	seen := map[string]bool{}
+	gq.Usage = func(what string) {
+		kind := "re-exec"
+		switch {
+		case strings.Contains(what, "changed the document"):
+			kind = "result-aliases-document"
+		case strings.Contains(what, "Parse + Prepare"):
+			kind = "prepare-path"
+		case strings.Contains(what, "panic during"):
+			kind = "panic"
+		}
+		if seen[kind] {
+			return
+		}
+		seen[kind] = true
+		r.Fail(id+"|api-usage|"+kind, what, map[string]any{"what": what})
+	}
+	return func() { gq.Usage = nil }
 }
